@@ -587,9 +587,11 @@ def run_history(unit):
                     c.violation(dict(key, check="operand modified"),
                                 "surface_timeseries changed the spectrum object it was given: " + fp_diff(fp, fingerprint(spec)))
                 ref = reference(f, e, fs, n, dtheta, theta)
-                lo, hi = ref[comp]
+                # 1D object: which horizontal component carries the signal is not stated -> only the
+                # fresh-object comparison applies to x, y, u, v
+                lo, hi = ref[comp] if comp in ref else (0.0, float("inf"))
                 vtot = ref["z"][1] if comp in ("z", "x", "y") else ref["w"][1]
-                tol = 1e-10 * hi + 1e-13 * vtot + 1e-12 * ref["m0sq"]
+                tol = 1e-10 * (hi if comp in ref else 0.0) + 1e-13 * vtot + 1e-12 * ref["m0sq"]
                 v = popvar(z)
                 if z.shape != (ref["nfft"],) or not (lo - tol <= v <= hi + tol):
                     c.violation(dict(key, check="variance"),
@@ -605,7 +607,7 @@ def run_history(unit):
                 c.cat("history_generate_after_mutation" if mutated else "history_generate_unmutated")
                 if step > 0 and any(x[0] == "gen" and x[2:] == ev[2:] for x in seq[:step]) and mutated:
                     c.cat("history_same_request_after_mutation")
-                if lo > 0:
+                if lo > 0 or comp not in ref:
                     c.nontriv((unit["object"], tuple(names), step))
     c.cat("histories", nhist)
     c.sample({"family": "history", "object": unit["object"], "events": [str(ev) for ev in events], "histories": nhist,
